@@ -45,22 +45,25 @@ type keySpec struct {
 }
 
 type op struct {
-	K        string `json:"k"` // store lookup has del at fire sweep conc
-	Key      int    `json:"key,omitempty"`
-	AtNs     int64  `json:"at_ns,omitempty"`
-	Prompt   bool   `json:"prompt,omitempty"`
-	ID       string `json:"id,omitempty"`
-	Pad      int    `json:"pad,omitempty"`
-	TTLk     int64  `json:"ttl_k,omitempty"`
-	RA       string `json:"ra,omitempty"`      // retry-after header value, "-" = header absent
-	RAName   string `json:"ra_name,omitempty"` // spelling of the header name in the response ("" = as configured)
-	Status   int    `json:"status,omitempty"`
-	Sel      int    `json:"sel,omitempty"`
-	DueOnly  bool   `json:"due_only,omitempty"`
-	N        int    `json:"n,omitempty"`
-	Lockstep bool   `json:"lockstep,omitempty"`
-	Res      string `json:"res,omitempty"` // observed
-	TNs      int64  `json:"t_ns,omitempty"`
+	K      string `json:"k"` // store lookup has del at fire sweep conc
+	Key    int    `json:"key,omitempty"`
+	AtNs   int64  `json:"at_ns,omitempty"`
+	Prompt bool   `json:"prompt,omitempty"`
+	ID     string `json:"id,omitempty"`
+	Pad    int    `json:"pad,omitempty"`
+	TTLk   int64  `json:"ttl_k,omitempty"`
+	RA     string `json:"ra,omitempty"`      // retry-after header value, "-" = header absent
+	RAName string `json:"ra_name,omitempty"` // spelling of the header name in the response ("" = as configured)
+	// setmax: the remedy's max_cache_size_megabytes from here on (a reload of the policies; the plugin and what it
+	// holds stay)
+	MaxMB    float32 `json:"max_mb,omitempty"`
+	Status   int     `json:"status,omitempty"`
+	Sel      int     `json:"sel,omitempty"`
+	DueOnly  bool    `json:"due_only,omitempty"`
+	N        int     `json:"n,omitempty"`
+	Lockstep bool    `json:"lockstep,omitempty"`
+	Res      string  `json:"res,omitempty"` // observed
+	TNs      int64   `json:"t_ns,omitempty"`
 }
 
 type caseSpec struct {
@@ -72,13 +75,13 @@ type caseSpec struct {
 	Selected []string  `json:"selected,omitempty"`
 	RAType   string    `json:"ra_type,omitempty"`
 	// NoRAHeader: the remedy's optional retry_after_header is omitted (responses still carry "Retry-After")
-	NoRAHeader bool `json:"retry_after_header_omitted,omitempty"`
-	MaxMB    float32   `json:"max_mb,omitempty"`
-	MaxRaw   int       `json:"max_raw,omitempty"`
-	Target   string    `json:"target,omitempty"`
-	Writers  int       `json:"writers,omitempty"`
-	Readers  int       `json:"readers,omitempty"`
-	Ops      []op      `json:"ops"`
+	NoRAHeader bool    `json:"retry_after_header_omitted,omitempty"`
+	MaxMB      float32 `json:"max_mb,omitempty"`
+	MaxRaw     int     `json:"max_raw,omitempty"`
+	Target     string  `json:"target,omitempty"`
+	Writers    int     `json:"writers,omitempty"`
+	Readers    int     `json:"readers,omitempty"`
+	Ops        []op    `json:"ops"`
 }
 
 type replay struct {
@@ -677,6 +680,7 @@ func (rn *runner) runCase(idx int, cs *caseSpec) int {
 	}
 	rn.v.Eval(1)
 	staleFires, fires, sweeps, concAdmitted := 0, 0, 0, -1
+	curMaxMB := cs.MaxMB // size cases: the configured maximum in force (changes with "setmax")
 	afterConc := false
 	usedKeys := map[int]bool{}
 	var tick atomic.Int64
@@ -753,7 +757,7 @@ func (rn *runner) runCase(idx int, cs *caseSpec) int {
 		}
 		var max float64
 		if cs.Kind == "size" {
-			max = float64(cs.MaxMB) * 1024 * 1024
+			max = float64(curMaxMB) * 1024 * 1024
 		} else if cs.MaxRaw > 0 {
 			max = float64(cs.MaxRaw)
 		} else {
@@ -887,6 +891,14 @@ func (rn *runner) runCase(idx int, cs *caseSpec) int {
 			case "lookup":
 				usedKeys[o.Key] = true
 				doLookup(i, o, o.Key, true)
+			case "setmax":
+				// everything stored before has expired (the generator places it right after an epoch change), so what a
+				// later sweep finds was stored under the new maximum
+				curMaxMB = o.MaxMB
+				if ct, ok := tg.(*cacheT); ok {
+					ct.cfg.MaxCacheSizeMegabytes = o.MaxMB
+				}
+				rn.v.Count("size_cases_max_cache_size_changed_between_epochs", 1)
 			case "sweep":
 				sweep(i)
 			case "conc":
@@ -1375,6 +1387,12 @@ func genSize(r *sim.Rand, idx int) caseSpec {
 	}
 	epochs := r.Range(2, 6)
 	for e := 0; e < epochs; e++ {
+		if e > 0 && r.Chance(1, 3) {
+			// the policies are reloaded with another (mostly smaller) maximum; the plugin instance stays
+			nm := sim.Pick(r, []float32{0.25, 0.125, 0.0625, 0.5})
+			tl.ops = append(tl.ops, op{K: "setmax", MaxMB: nm})
+			maxB = int(float64(nm) * 1024 * 1024)
+		}
 		if r.Chance(2, 3) {
 			// concurrent stores at the limit: room for exactly one of them
 			b := maxB / sim.Pick(r, []int{8, 16, 64})
